@@ -188,12 +188,11 @@ Proof.
 Qed.
 Print Assumptions c08_fantasy_columns_independent.
 
-(* negative log marginal likelihood = 1/2 (r^T alpha + log det A + n log 2 pi) GIVEN
-   det A = (prod L_ii)^2.  PARTIAL: the determinant of a list matrix is not defined in this
-   development, so the determinant identity is a hypothesis about the number [detA]
-   (full statement: ... with detA := det (K + sigsq I)); what IS proved is the quadratic form
-   |P|^2 = r^T alpha and 2 sum log|L_ii| = log((prod L_ii)^2). *)
-Theorem c08_nlml_dense_partial :
+(* negative log marginal likelihood = 1/2 (r^T alpha + log detA + n log 2 pi) for any number detA
+   equal to (prod L_ii)^2: the quadratic form |P|^2 = r^T alpha and 2 sum log|L_ii| = log((prod L_ii)^2).
+   This is the step used by the full-strength c08_nlml_dense at the end of this file (where detA is the
+   determinant of K + sigsq I). *)
+Theorem c08_nlml_given_det :
   forall (L : list (list R)) (p r alpha : list R) (detA : R),
     LowerTri L -> Square L ->
     length p = length L -> length alpha = length L ->
@@ -201,7 +200,7 @@ Theorem c08_nlml_dense_partial :
     detA = prodR (diag NumR L) * prodR (diag NumR L) ->
     nlml NumR L p = / 2 * (INR (length L) * ln (2 * PI) + ln detA + dot NumR r alpha).
 Proof. exact nlml_dense. Qed.
-Print Assumptions c08_nlml_dense_partial.
+Print Assumptions c08_nlml_given_det.
 
 (* kernel: SquaredDistance.forward computes sum_k (ib_k (x_k - y_k))^2 *)
 Theorem c08_sqdist_textbook :
@@ -237,6 +236,100 @@ Theorem c08_kernel_ard_isotropic :
     matern52 NumR (ib_vector NumR false d [b]) cs jit x y.
 Proof. exact ard_isotropic. Qed.
 Print Assumptions c08_kernel_ard_isotropic.
+
+(* ---- sample_and_cholesky_update: with the N(0,1) draws z as input, the fantasised target is
+   posterior mean + z * posterior standard deviation (floored variance, no noise added) at the new
+   input, and the returned state is the posterior state of the data extended by that target *)
+Theorem c08_sample_and_update :
+  forall (L A : list (list R)) (Pcols Rcols : list (list R)) (kvec z : list R)
+         (kscal noise mscal floor clamp2 : R),
+    StateOK L A Pcols Rcols -> length kvec = length L -> length z = length Pcols -> 0 < clamp2 ->
+    let lvec := forward_subst NumR L kvec in
+    let raw := kscal + noise - dot NumR lvec lvec in
+    let res := sample_and_cholesky_update NumR L Pcols kvec kscal noise mscal z floor clamp2 in
+    (forall j, (j < length Pcols)%nat ->
+       nth j (snd res) 0 =
+       mean_entry (predict_means NumR L Pcols [kvec] [mscal]) 0 j
+       + nth j z 0 * sqrt (nth 0 (predict_vars NumR L [kvec] [kscal] floor) 0)) /\
+    StateOK (fst (fst res)) (sym_extend A kvec (dot NumR lvec lvec + Rmax raw clamp2)) (snd (fst res))
+            (map2 (fun r tj => r ++ [tj - mscal]) Rcols (snd res)) /\
+    fst res = cholesky_update NumR L Pcols kvec kscal noise mscal (snd res) clamp2.
+Proof. exact sample_update_state. Qed.
+Print Assumptions c08_sample_and_update.
+
+(* ---- warping (every carrier N, binary64 included): a Warping block acts coordinate-wise and only
+   on its own range; blocks on disjoint ranges commute; a list of pairwise disjoint blocks transforms
+   coordinate i by the Kumaraswamy map of the one block containing i and leaves the others alone
+   (this is what WarpedKernel._apply_warpings must compute) *)
+Theorem c08_warp_block_coordinatewise :
+  forall (N : Num) (jit : T N) (blk : wblock N) (x : vec N) i d, (i < length x)%nat ->
+    length (warp_block N jit blk x) = length x /\
+    nth i (warp_block N jit blk x) d =
+      if in_block N blk i
+      then kuma N jit (nth (i - w_lo N blk) (w_a N blk) (one N)) (nth (i - w_lo N blk) (w_b N blk) (one N)) (nth i x d)
+      else nth i x d.
+Proof.
+  intros N jit blk x i d Hi. split; [apply warp_block_length|].
+  rewrite (warp_block_nth N jit blk x i d Hi). reflexivity.
+Qed.
+Print Assumptions c08_warp_block_coordinatewise.
+
+Theorem c08_warp_blocks_commute :
+  forall (N : Num) (jit : T N) (b1 b2 : wblock N) (x : vec N), disjoint N b1 b2 ->
+    warp_block N jit b1 (warp_block N jit b2 x) = warp_block N jit b2 (warp_block N jit b1 x).
+Proof. exact warp_block_comm. Qed.
+Print Assumptions c08_warp_blocks_commute.
+
+Theorem c08_warp_blocks_compose :
+  forall (N : Num) (jit : T N) (bs : list (wblock N)) (x : vec N) i d,
+    pairwise_disjoint N bs -> (i < length x)%nat ->
+    nth i (apply_warpings N jit bs x) d =
+    match find (fun b => in_block N b i) bs with
+    | Some b => warp_coord N jit b i (nth i x d)
+    | None => nth i x d
+    end.
+Proof. exact apply_warpings_nth. Qed.
+Print Assumptions c08_warp_blocks_compose.
+
+(* k_warped(x,y) = k(w(x), w(y)); symmetric and with the base kernel's diagonal *)
+Theorem c08_warped_kernel :
+  forall (ib : list R) (cs mj wj : R) (bs : list (wblock NumR)) (x y : list R),
+    warped_kernel NumR (matern52 NumR ib cs mj) wj bs x y =
+      matern52 NumR ib cs mj (apply_warpings NumR wj bs x) (apply_warpings NumR wj bs y) /\
+    warped_kernel NumR (matern52 NumR ib cs mj) wj bs x y = warped_kernel NumR (matern52 NumR ib cs mj) wj bs y x /\
+    warped_kernel NumR (matern52 NumR ib cs mj) wj bs x x = (1 + sqrt mj) * exp (- sqrt mj) * cs.
+Proof.
+  intros ib cs mj wj bs x y. split; [reflexivity|]. split.
+  - apply warped_kernel_sym. intros u v. apply matern52_sym.
+  - apply warped_matern_self.
+Qed.
+Print Assumptions c08_warped_kernel.
+
+(* at a = b = 1 the Kumaraswamy map is the documented rescaling [0,1] -> [eps, 1 - eps]: identity up to eps *)
+Theorem c08_warp_identity_at_one :
+  forall jit x : R, 0 < jit -> jit < / 2 -> 0 <= x <= 1 ->
+    kuma NumR jit 1 1 x = (1 - 2 * jit) * x + jit /\ Rabs (kuma NumR jit 1 1 x - x) <= jit.
+Proof. exact kuma_identity. Qed.
+Print Assumptions c08_warp_identity_at_one.
+
+(* product and range kernels as plain compositions: symmetry inherited, diagonal = product of diagonals *)
+Theorem c08_product_range_kernels :
+  forall (ib1 ib2 : list R) (cs1 cs2 mj : R) (d1 s l : nat) (x y : list R),
+    product_kernel NumR (matern52 NumR ib1 cs1 mj) d1 (matern52 NumR ib2 cs2 mj) x y =
+      matern52 NumR ib1 cs1 mj (firstn d1 x) (firstn d1 y) * matern52 NumR ib2 cs2 mj (skipn d1 x) (skipn d1 y) /\
+    product_kernel NumR (matern52 NumR ib1 cs1 mj) d1 (matern52 NumR ib2 cs2 mj) x y =
+      product_kernel NumR (matern52 NumR ib1 cs1 mj) d1 (matern52 NumR ib2 cs2 mj) y x /\
+    product_kernel NumR (matern52 NumR ib1 cs1 mj) d1 (matern52 NumR ib2 cs2 mj) x x =
+      ((1 + sqrt mj) * exp (- sqrt mj) * cs1) * ((1 + sqrt mj) * exp (- sqrt mj) * cs2) /\
+    range_kernel NumR (matern52 NumR ib1 cs1 mj) s l x y =
+      matern52 NumR ib1 cs1 mj (firstn l (skipn s x)) (firstn l (skipn s y)) /\
+    range_kernel NumR (matern52 NumR ib1 cs1 mj) s l x y = range_kernel NumR (matern52 NumR ib1 cs1 mj) s l y x.
+Proof.
+  intros. split; [reflexivity|]. split; [apply product_kernel_sym; intros; apply matern52_sym|].
+  split; [apply product_matern_self|]. split; [reflexivity|].
+  apply range_kernel_sym. intros; apply matern52_sym.
+Qed.
+Print Assumptions c08_product_range_kernels.
 
 (* non-vacuity: a concrete 2x2 posterior state satisfies every hypothesis used above
    (L lower triangular with non-zero diagonal, square, L L^T = A, L p = r, A alpha = r,
@@ -286,13 +379,42 @@ Proof.
     rewrite H2. split; [|exact I]. lra.
 Qed.
 
-(* The determinant identity assumed by c08_nlml_dense_partial, proved over MathComp matrices on
-   any commutative ring (so also the reals): for lower-triangular L, det (L L^T) = (prod L_ii)^2.
-   Linked to the list model only by shape (no transport lemma): that is the remaining gap of
-   the likelihood statement. Kept last: the MathComp imports change notations. *)
+(* ---- the likelihood at full strength.  [det_list M] = MathComp's determinant of the matrix with the
+   entries of the list matrix M (proofs/GPLinDetProofs.v); c08_det_list_2x2 shows it is the usual one.
+   Kept last: the MathComp imports change notations. *)
 Set Warnings "-notation-overridden,-ambiguous-paths".
 From mathcomp Require Import all_ssreflect all_algebra.
 From Verif Require Import proofs.GPLinDetProofs.
+
+Theorem c08_det_list_2x2 :
+  forall a b c d : R, det_list [[a; b]; [c; d]] = Rminus (Rmult a d) (Rmult b c).
+Proof. exact det_list_22. Qed.
+Print Assumptions c08_det_list_2x2.
+
+(* det (L L^T) = (prod L_ii)^2 for the LIST model's lower-triangular L *)
+Theorem c08_det_cholesky :
+  forall L : list (list R), LowerTri L -> Square L ->
+    det_list (gram NumR L) = Rmult (prodR (diag NumR L)) (prodR (diag NumR L)).
+Proof. exact det_gram_list. Qed.
+Print Assumptions c08_det_cholesky.
+
+(* nlml = 1/2 (n ln 2 pi + ln det (K + sigsq I) + r^T alpha) for EVERY alpha with (K + sigsq I) alpha = r,
+   whenever (L, p) is a posterior state of A = K + sigsq I: no determinant hypothesis any more *)
+Theorem c08_nlml_dense :
+  forall (L A : list (list R)) (p r alpha : list R),
+    LowerTri L -> Square L -> gram NumR L = A ->
+    List.length p = List.length L -> List.length alpha = List.length L ->
+    mv NumR L p = r -> mv NumR A alpha = r ->
+    nlml NumR L p =
+    Rmult (Rinv 2) (Rplus (Rplus (Rmult (INR (List.length L)) (ln (Rmult 2 PI))) (ln (det_list A)))
+                          (dot NumR r alpha)).
+Proof.
+  intros L A p r alpha Hlt Hsq HA Hp Ha HLp HAa. subst A.
+  exact (nlml_dense_full Hlt Hsq Hp Ha HLp HAa).
+Qed.
+Print Assumptions c08_nlml_dense.
+
+(* the identity over MathComp matrices on any commutative ring (first wave; closed under the global context) *)
 Theorem c08_det_cholesky_mathcomp :
   forall (F : comRingType) (n : nat) (L : 'M[F]_n),
     is_trig_mx L -> (\det (L *m L^T) = (\prod_i L i i) ^+ 2)%R.
